@@ -377,6 +377,10 @@ def load_octree_for_query(
     root_node = OctreeNode()
     root_node.key.level = 0
 
+    if level_range is not None:
+        # Deepest level that can be part of the range (ascending or descending)
+        last_level = max(level_range.start, level_range.stop - 1)
+
     satisfying_nodes = []
     nodes_to_load: List[OctreeNode] = [root_node]
     # Locations of the hierarchy pages loaded by this call. In a valid file,
@@ -393,7 +397,7 @@ def load_octree_for_query(
         if not is_in_bounds:
             continue
 
-        if level_range is not None and current_node.key.level >= level_range.stop:
+        if level_range is not None and current_node.key.level > last_level:
             continue
 
         try:
